@@ -5,6 +5,7 @@ package main
 import (
 	"fmt"
 	"go/token"
+	"go/types"
 	"sort"
 	"strings"
 
@@ -270,7 +271,7 @@ func c02Flush(c *Ctx) {
 		c.Check(asc, rule, fn, "index-order", snd, "parked messages are flushed in ascending index order", "flush loop does not walk the parked buffer in ascending index order", nil)
 		// buf = nil must follow on every path after the loop exits; approximate: from the send, every path to
 		// the next outer iteration / return passes a store of nil to .buf
-		clear := StoreTo(IsNil(), "partitionRetryState.buf")
+		clear := clearsParkedBuffer
 		outer := fi.InnermostLoop(l.Head)
 		var reg *Region
 		for _, ol := range fi.Loops {
@@ -314,7 +315,7 @@ func c02Flush(c *Ctx) {
 		} else {
 			reg = WholeFn(fn)
 		}
-		esc, path := reg.From(s.After()).Escape(StoreTo(IsNil(), "partitionRetryState.buf"))
+		esc, path := reg.From(s.After()).Escape(clearsParkedBuffer)
 		cc, _ := callCommon(s)
 		c.Check(!esc, rule, fn, "clear-after-handing-over:"+p.CalleeName(cc), s.In, "a parked buffer handed to "+p.CalleeName(cc)+" is cleared before the next level / return on every path",
 			"a parked buffer handed to "+p.CalleeName(cc)+" is not cleared on every path: its messages have already had their final event and are flushed again with the next level (a second event for the same message, inFlight released twice)", path)
@@ -490,10 +491,19 @@ func c02Recheck(c *Ctx) {
 	// "the message need not be retried": needsRetry(msg) == nil, or the same test written out where the helper
 	// was inlined — the per-partition bounce state bp.currentRetries[msg.Topic][msg.Partition] compared with nil,
 	// directly or merged (phi) with bp.closing
-	clear := func(msg VM) Pred {
+	clear := func(msg VM, after ssa.Instruction) Pred {
+		// fresh: the value is computed after the instruction `after` on every path (nil: no such requirement) — a
+		// result computed before a response was handled says nothing about the state the response left
+		fresh := func(v ssa.Value) bool {
+			if after == nil {
+				return true
+			}
+			in, ok := v.(ssa.Instruction)
+			return ok && instrDominates(after, in)
+		}
 		bounce := func(v ssa.Value) bool {
 			lk, ok := strip(v).(*ssa.Lookup)
-			if !ok || !FieldLoadOf("ProducerMessage.Partition", msg)(lk.Index) {
+			if !ok || !FieldLoadOf("ProducerMessage.Partition", msg)(lk.Index) || !fresh(lk) {
 				return false
 			}
 			lk2, ok := strip(lk.X).(*ssa.Lookup)
@@ -518,7 +528,7 @@ func c02Recheck(c *Ctx) {
 		}
 		call := func(v ssa.Value) bool {
 			cl, ok := v.(*ssa.Call)
-			return ok && p.CalleeName(&cl.Call) == "brokerProducer.needsRetry" && len(cl.Call.Args) == 2 && msg(cl.Call.Args[1])
+			return ok && p.CalleeName(&cl.Call) == "brokerProducer.needsRetry" && len(cl.Call.Args) == 2 && msg(cl.Call.Args[1]) && fresh(cl)
 		}
 		return AnyOf{Cmp{token.EQL, call, IsNil()}, Cmp{token.EQL, bounce, IsNil()}, Cmp{token.EQL, merged, IsNil()}}
 	}
@@ -530,7 +540,7 @@ func c02Recheck(c *Ctx) {
 		}
 		for _, h := range hr {
 			r2 := *reg.From(h.After())
-			pr := clear(ParamN(1))
+			pr := clear(ParamN(1), h.Instr())
 			r2.Cut = func(from, to *ssa.BasicBlock) bool { return Establishes(from, to, pr) }
 			it, path := r2.Reach(ReturnNilErr(), nil)
 			c.Check(it.IsZero(), rule, fn, "recheck-after-response", h.Instr(), "after handling a response the waiting message is re-checked with needsRetry(msg) before it is let through",
@@ -543,7 +553,7 @@ func c02Recheck(c *Ctx) {
 			reg := fi.Iteration(fi.Loops[0])
 			for _, a := range reg.Find(p.CallTo("produceSet.add")) {
 				msg := callArgs(a)[1]
-				g, path := reg.Guarded(a, clear(Same(msg)))
+				g, path := reg.Guarded(a, clear(Same(msg), nil))
 				c.Check(g, rule, fn, "needsRetry-before-add", a.Instr(), "a message is buffered only after needsRetry(msg) == nil", "a message can be buffered without the needsRetry test: it overtakes the bounced messages of its partition", path)
 			}
 		}
@@ -554,7 +564,7 @@ func c02Recheck(c *Ctx) {
 func c02RetryStateKept(c *Ctx) {
 	p := c.P
 	rule := "C02.retry-state-kept"
-	c.Doc(rule, "bp.currentRetries[topic] (the per-topic map of partitions that are being retried) is assigned only where the lookup bp.currentRetries[topic] == nil has just been established for the same key: replacing an existing map would wipe the retrying mark of the topic's other partitions, whose later messages would then overtake the ones being retried")
+	c.Doc(rule, "bp.currentRetries[topic] (the per-topic map of partitions that are being retried) is assigned only where the lookup bp.currentRetries[topic] has just been found nil / absent for the same key: replacing an existing map would wipe the retrying mark of the topic's other partitions, whose later messages would then overtake the ones being retried")
 	c.Floor(rule, 2)
 	outer := FieldLoad("brokerProducer.currentRetries")
 	for _, fn := range p.Fns {
@@ -564,10 +574,15 @@ func c02RetryStateKept(c *Ctx) {
 		fi := Info(fn)
 		for _, s := range fi.Find(MapUpdateOn(outer)) {
 			mu := s.In.(*ssa.MapUpdate)
-			missing := Cmp{token.EQL, func(v ssa.Value) bool {
+			sameLookup := func(v ssa.Value) bool {
 				lk, ok := strip(v).(*ssa.Lookup)
 				return ok && outer(lk.X) && samePath(lk.Index, mu.Key)
-			}, IsNil()}
+			}
+			// `m[k] == nil`, or `_, ok := m[k]; !ok`
+			missing := AnyOf{Cmp{token.EQL, sameLookup, IsNil()}, Truth{func(v ssa.Value) bool {
+				ex, ok := v.(*ssa.Extract)
+				return ok && ex.Index == 1 && sameLookup(ex.Tuple)
+			}, false}}
 			root := fn
 			for root.Parent() != nil && iifeCall(root) != nil {
 				root = root.Parent()
@@ -576,4 +591,43 @@ func c02RetryStateKept(c *Ctx) {
 			c.Check(ok, rule, fn, "create-only-if-missing", mu, "the per-topic map is created only where it is missing", "the per-topic map of bp.currentRetries is replaced without testing that it is missing: the retrying marks of the topic's other partitions are lost and their later messages overtake the retried ones", path)
 		}
 	}
+}
+
+// instrDominates: a is executed before b on every path that reaches b.
+func instrDominates(a, b ssa.Instruction) bool {
+	if a == nil || b == nil || a.Parent() != b.Parent() {
+		return false
+	}
+	if a.Block() != b.Block() {
+		return a.Block().Dominates(b.Block())
+	}
+	for _, in := range a.Block().Instrs {
+		if in == a {
+			return true
+		}
+		if in == b {
+			return false
+		}
+	}
+	return false
+}
+
+// clearsParkedBuffer: `<retry state>.buf = nil` on the partition producer's own state — a store through a pointer or
+// an element address, not into a local copy of the partitionRetryState struct (clearing a copy clears nothing).
+func clearsParkedBuffer(it Item) bool {
+	if !StoreTo(IsNil(), "partitionRetryState.buf")(it) {
+		return false
+	}
+	st := it.In.(*ssa.Store)
+	ch := fieldChain(st.Addr)
+	if len(ch) == 0 {
+		return false
+	}
+	if al, isLocal := ch[0].base.(*ssa.Alloc); isLocal {
+		// a local variable holding a partitionRetryState by value
+		if _, isPtr := al.Type().Underlying().(*types.Pointer).Elem().Underlying().(*types.Pointer); !isPtr {
+			return false
+		}
+	}
+	return true
 }
